@@ -35,7 +35,8 @@ theorem deEventsAt_stop_succ (d : Nat) (n : Bytes) (t : List QEv) :
 theorem deEventsAt_comment (d : Nat) (t : List QEv) : deEventsAt d (.comment :: t) = deEventsAt d t := by
   simp [deEventsAt]
 
-theorem deEventsAt_pi (d : Nat) (t : List QEv) : deEventsAt d (.pi :: t) = deEventsAt d t := by simp [deEventsAt]
+theorem deEventsAt_pi (d : Nat) (c : Bytes) (t : List QEv) (h : piTargetOk c = true) :
+    deEventsAt d (.pi c :: t) = deEventsAt d t := by simp [deEventsAt, h]
 
 /-- **no text event the deserialiser is handed holds `]]>`** — for every token sequence and every depth, whether the
 text is read as the content of a scalar or skipped between elements -/
@@ -73,7 +74,11 @@ theorem deEventsAt_text_clean : ∀ (q : List QEv) (d : Nat) (raw : Bytes),
   | .err :: t, d, raw, h => by simp [deEventsAt] at h
   | .comment :: t, d, raw, h => by simp only [deEventsAt] at h; exact deEventsAt_text_clean t d raw h
   | .decl :: t, d, raw, h => by simp only [deEventsAt] at h; exact deEventsAt_text_clean t d raw h
-  | .pi :: t, d, raw, h => by simp only [deEventsAt] at h; exact deEventsAt_text_clean t d raw h
+  | .pi c :: t, d, raw, h => by
+    simp only [deEventsAt] at h
+    split at h
+    · exact deEventsAt_text_clean t d raw h
+    · simp at h
   | .doctype :: t, d, raw, h => by simp only [deEventsAt] at h; exact deEventsAt_text_clean t d raw h
 
 /-- the meaning of a run is valid UTF-8 -/
@@ -105,7 +110,11 @@ theorem charsMeaning_valid : ∀ (run : List QEv) (m : Bytes), charsMeaning run 
       exact utf8Valid_append (utf8Valid_normEol hv) (charsMeaning_valid r b hb)
     · cases h
   | .comment :: r, m, h => charsMeaning_valid r m (by simpa [charsMeaning] using h)
-  | .pi :: r, m, h => charsMeaning_valid r m (by simpa [charsMeaning] using h)
+  | .pi c :: r, m, h => by
+    simp only [charsMeaning] at h
+    split at h
+    · exact charsMeaning_valid r m h
+    · cases h
   | .start _ _ :: _, _, h | .stop _ :: _, _, h | .empty _ _ :: _, _, h
   | .decl :: _, _, h | .doctype :: _, _, h | .err :: _, _, h => by simp [charsMeaning] at h
 
@@ -160,9 +169,13 @@ theorem textLoop_joined (name : Bytes) (rest : List QEv) (d : Nat) : ∀ (run : 
   | .comment :: r, s, m, hs, hm => by
     have := textLoop_joined name rest d r s m hs (by simpa [charsMeaning] using hm)
     simpa [deEventsAt_comment] using this
-  | .pi :: r, s, m, hs, hm => by
-    have := textLoop_joined name rest d r s m hs (by simpa [charsMeaning] using hm)
-    simpa [deEventsAt_pi] using this
+  | .pi c :: r, s, m, hs, hm => by
+    simp only [charsMeaning] at hm
+    split at hm
+    · rename_i hpi
+      have := textLoop_joined name rest d r s m hs hm
+      simpa [deEventsAt_pi _ c _ hpi] using this
+    · cases hm
   | .start _ _ :: _, _, _, _, hm | .stop _ :: _, _, _, _, hm | .empty _ _ :: _, _, _, _, hm
   | .decl :: _, _, _, _, hm | .doctype :: _, _, _, _, hm | .err :: _, _, _, _, hm => by simp [charsMeaning] at hm
 
@@ -221,9 +234,13 @@ theorem textLoop_single (name : Bytes) (rest : List QEv) (d : Nat) (x ax : Bytes
   | .comment :: r, m, hm => by
     have := textLoop_single name rest d x ax hx hux r m (by simpa [charsMeaning] using hm)
     simpa [deEventsAt_comment] using this
-  | .pi :: r, m, hm => by
-    have := textLoop_single name rest d x ax hx hux r m (by simpa [charsMeaning] using hm)
-    simpa [deEventsAt_pi] using this
+  | .pi c :: r, m, hm => by
+    simp only [charsMeaning] at hm
+    split at hm
+    · rename_i hpi
+      have := textLoop_single name rest d x ax hx hux r m hm
+      simpa [deEventsAt_pi _ c _ hpi] using this
+    · cases hm
   | .start _ _ :: _, _, hm | .stop _ :: _, _, hm | .empty _ _ :: _, _, hm
   | .decl :: _, _, hm | .doctype :: _, _, hm | .err :: _, _, hm => by simp [charsMeaning] at hm
 
@@ -274,9 +291,13 @@ theorem textOf_meaning (name : Bytes) (rest : List QEv) (d : Nat) : ∀ (run : L
   | .comment :: r, m, hm => by
     have := textOf_meaning name rest d r m (by simpa [charsMeaning] using hm)
     simpa [deEventsAt_comment] using this
-  | .pi :: r, m, hm => by
-    have := textOf_meaning name rest d r m (by simpa [charsMeaning] using hm)
-    simpa [deEventsAt_pi] using this
+  | .pi c :: r, m, hm => by
+    simp only [charsMeaning] at hm
+    split at hm
+    · rename_i hpi
+      have := textOf_meaning name rest d r m hm
+      simpa [deEventsAt_pi _ c _ hpi] using this
+    · cases hm
   | .start _ _ :: _, _, hm | .stop _ :: _, _, hm | .empty _ _ :: _, _, hm
   | .decl :: _, _, hm | .doctype :: _, _, hm | .err :: _, _, hm => by simp [charsMeaning] at hm
 
